@@ -28,6 +28,11 @@ class Template:
     pad_ok: bool = True     # may the statement be preceded by `p = 0; ` on the same line
     min_gap: int = 0        # blank lines forced after the site
     quick: bool = True
+    lost_when_enclosed: bool = False   # on_result_found rebuilds a selected node from original_node (replace_args(original_node, ..)):
+                                       # the rewrite of a selected node nested in another selected node is discarded
+    acts_on_any_selected: bool = True  # the transformer acts on (and reports a change for) every selected tested node; False: it first
+                                       # checks that the node is the construct it fixes, so only the site nodes count
+    entry_span: int = 1     # change entries reported per selected node, at consecutive lines from its start line
     extra: dict = field(default_factory=dict)
 
 
@@ -36,13 +41,13 @@ TEMPLATES = [
     Template("sonar:python/timezone-aware-datetime", "sonar", "python:S6903", "import datetime\n",
              "v{i} = datetime.datetime.utcnow()", "value"),
     Template("sonar:python/jwt-decode-verify", "sonar", "python:S5659", "import jwt\n",
-             'v{i} = jwt.decode(tok, "k", algorithms=["HS256"], verify=False)', "kw:verify", ovr="FFuzzyCall"),
+             'v{i} = jwt.decode(tok, "k", algorithms=["HS256"], verify=False)', "kw:verify", ovr="FFuzzyCall", lost_when_enclosed=True),
     Template("sonar:python/fix-math-isclose", "sonar", "python:S6727", "import math\n", "v{i} = math.isclose(a{i}, 0)", "func",
-             ovr="FFuzzyCall"),
+             ovr="FFuzzyCall", acts_on_any_selected=False),
     Template("sonar:python/secure-tempfile", "sonar", "python:S5445", "import tempfile\n", "v{i} = tempfile.mktemp()", "value",
              tested="stmt", tested_kind="KStmtLine", ovr="FSameLineStmt", pad_ok=False),
     Template("sonar:python/fix-assert-tuple", "sonar", "python:S5905", "", "assert (m{i}, 1)", "test", tested="test",
-             tested_kind="KTuple", pad_ok=False, min_gap=1),
+             tested_kind="KTuple", pad_ok=False, entry_span=2),
     Template("sonar:python/invert-boolean-check", "sonar", "python:S1940", "", "v{i} = not a{i} == b", "value", tested_kind="KOther"),
     Template("sonar:python/numpy-nan-equality", "sonar", "python:S6725", "import numpy as np\n", "v{i} = a{i} == np.nan", "value",
              tested_kind="KOther"),
@@ -55,10 +60,11 @@ TEMPLATES = [
     Template("semgrep:python/rsa-key-size", "semgrep",
              "python.cryptography.security.insufficient-rsa-key-size.insufficient-rsa-key-size",
              "from cryptography.hazmat.primitives.asymmetric import rsa\n",
-             "v{i} = rsa.generate_private_key(public_exponent=65537, key_size=1024)", "kw:key_size", ovr="FFuzzyCall"),
+             "v{i} = rsa.generate_private_key(public_exponent=65537, key_size=1024)", "kw:key_size", ovr="FFuzzyCall",
+             lost_when_enclosed=True),
     Template("semgrep:python/jwt-decode-verify", "semgrep", "python.jwt.security.unverified-jwt-decode.unverified-jwt-decode",
              "import jwt\n", 'v{i} = jwt.decode(tok, "k", algorithms=["HS256"], verify=False)', "kw:verify", ovr="FFuzzyCall",
-             quick=False),
+             quick=False, lost_when_enclosed=True),
     Template("semgrep:python/enable-jinja2-autoescape", "semgrep",
              "python.flask.security.xss.audit.direct-use-of-jinja2.direct-use-of-jinja2", "from jinja2 import Environment\n",
              "v{i} = Environment()", "value", quick=False),
@@ -74,7 +80,7 @@ FOREIGN_RULE = {"sonar": "python:S9999", "semgrep": "python.lang.foreign.other-r
 # ------------------------------------------------------------------------------------------------
 # program generation
 # ------------------------------------------------------------------------------------------------
-def gen_program(rng: random.Random, t: Template, n: int, same_line_pair=False, multiline=False):
+def gen_program(rng: random.Random, t: Template, n: int, same_line_pair=False, multiline=False, wrap=None):
     """Returns (source, [site statement text]).  Sites sit at random indentation / column offsets, in blocks."""
     lines = [t.header] if t.header else []
     lines.append("\n" * rng.randint(0, 2))
@@ -88,6 +94,10 @@ def gen_program(rng: random.Random, t: Template, n: int, same_line_pair=False, m
             lines.append(f"class K{i}:\n    def m(self, x):\n")
         pre = " " * indent
         s = t.stmt.format(i=i)
+        if t.ovr == "FFuzzyCall" and " = " in s and (rng.random() < 0.3 if wrap is None else wrap):
+            # the reported call as the argument of another call on the same line: the location lies inside both
+            lhs, rhs = s.split(" = ", 1)
+            s = f"{lhs} = str({rhs})"
         if multiline and s.endswith(")") and "(" in s:
             # spread the call over three lines: the closing parenthesis on its own line
             head, tail = s[:-1], ")"
@@ -189,10 +199,15 @@ def analyse(src: str, t: Template, n: int):
     w.module.visit(v)
     for i in range(1, n + 1):
         small, line = small_of[i]
+        wrapped = False
+        if isinstance(small, cst.Assign) and isinstance(small.value, cst.Call) and isinstance(small.value.func, cst.Name) and \
+                small.value.func.value == "str" and len(small.value.args) == 1 and isinstance(small.value.args[0].value, cst.Call):
+            small = small.with_changes(value=small.value.args[0].value)     # selectors address the wrapped call
+            wrapped = True
         rep = line if t.site == "stmt" else _select(small, t.site)
         tst = line if t.tested == "stmt" else _select(small, t.tested)
         sites[i] = {"reported": span(rep), "tested": span(tst), "tested_node": tst, "line": span(tst)[0],
-                    "reported_is_tuple": isinstance(rep, cst.Tuple)}
+                    "reported_is_tuple": isinstance(rep, cst.Tuple), "wrapped": wrapped}
     pool = {"KCall": v.calls, "KStmtLine": v.stmts, "KTuple": v.tuples, "KOther": v.others}[t.tested_kind]
     tested = []
     site_by_node = {id(s["tested_node"]): i for i, s in sites.items()}
@@ -200,6 +215,8 @@ def analyse(src: str, t: Template, n: int):
     for nd in sorted(pool, key=lambda x: (pos[x].end.line, pos[x].end.column, -pos[x].start.line, -pos[x].start.column)):
         i = site_by_node.get(id(nd))
         if i is None:
+            if not t.acts_on_any_selected:
+                continue
             nxt += 1
             tested.append((nxt, t.tested_kind, span(nd)))
         else:
